@@ -37,7 +37,20 @@ Unfortunately the rules are not iherited from base SQLParser, because it just do
 class MindsDBParser(Parser):
     log = ParserLogger()
     tokens = MindsDBLexer.tokens
-    text = None  # query text, set by parse_sql
+    lexer = None  # the paired lexer, set by get_lexer_parser
+    _text = None
+
+    @property
+    def text(self):
+        # query text (raw inner queries are cut out of it): set by parse_sql,
+        # otherwise the text that the paired lexer is tokenizing
+        if self._text is None and self.lexer is not None:
+            return getattr(self.lexer, 'text', None)
+        return self._text
+
+    @text.setter
+    def text(self, value):
+        self._text = value
 
     precedence = (
         ('left', OR),
